@@ -916,6 +916,38 @@ def r13n(ctx):
                            f"explicit name, delete_styles, edits of doc.styles): what it answers from that state — a free name, a default, an index — is then wrong for the current parts")
 
 
+def r13o(ctx):
+    """The containers of a family are searched in the order its table entry gives.
+
+    `CONTEXT_MAPPING[family]` lists where styles of a family may live, most specific answer first: `office:styles` before
+    `office:automatic-styles`.  Lookup returns the first hit, so the order is part of the answer: a common style and an automatic style of
+    styles.xml may carry the same name (`Mdp1`, `MP1` in the templates), and the common one is the one `insert_style` replaces and returns.
+    A rewrite that filters a fixed list of containers by membership in the entry keeps the set and loses the order.  Rule: for a given
+    family, `Styles._get_style_contexts` builds its answer by iterating over the table entry itself.
+    """
+    repo = ctx.repo
+    ctx.rule("R13o", "Styles._get_style_contexts walks the CONTEXT_MAPPING entry of the family in its own order", floor=1)
+    f = repo.func("Styles._get_style_contexts")
+    entry = {a.targets[0].id for a in walk_no_nested(f.node) if isinstance(a, ast.Assign) and len(a.targets) == 1 and isinstance(a.targets[0], ast.Name)
+             and any(isinstance(x, ast.Name) and x.id == "CONTEXT_MAPPING" for x in ast.walk(a.value))}
+    if not entry:
+        raise AnalysisError("R13o: _get_style_contexts no longer reads CONTEXT_MAPPING into a local")
+    rets = [r for r in walk_no_nested(f.node) if isinstance(r, ast.Return) and r.value is not None]
+    last = rets[-1]
+    v = last.value
+    if isinstance(v, ast.Name):
+        defs = [a.value for a in walk_no_nested(f.node) if isinstance(a, ast.Assign) and any(isinstance(t, ast.Name) and t.id == v.id for t in a.targets)]
+        v = defs[-1] if defs else v
+    iters = [g.iter for g in v.generators] if isinstance(v, (ast.ListComp, ast.GeneratorExp)) else \
+        [lp.iter for lp in walk_no_nested(f.node) if isinstance(lp, ast.For)]
+    ok = bool(iters) and isinstance(iters[0], ast.Name) and iters[0].id in entry
+    ctx.instance("R13o", f"{f.file}:{f.ident}", f"answer built by iterating `{norm(iters[0], 20) if iters else '?'}`", ok=ok, nontrivial=True, line=last.lineno)
+    if not ok:
+        ctx.report("R13o", f, last, norm(last, 50),
+                   f"{f.ident} does not build the answer for a family by walking its CONTEXT_MAPPING entry (it iterates `{norm(iters[0], 30) if iters else 'nothing'}`): the order of the "
+                   f"entry — office:styles before office:automatic-styles — is lost, and a lookup returns the automatic style of styles.xml where a common style of the same name exists")
+
+
 def run(ctx):
     r13ab(ctx)
     r13c(ctx)
@@ -930,6 +962,7 @@ def run(ctx):
     r13l(ctx)
     r13m(ctx)
     r13n(ctx)
+    r13o(ctx)
 
 
 from ..selftest import Seed, unparse_seed  # noqa: E402
